@@ -64,3 +64,37 @@ Qed.
 Theorem C01_token_lexers_consume : forall veto l w n,
   In l GenLexers.token_lexers -> HandLex.lex veto l w = Some n -> 1 <= n <= length w.
 Proof. exact LexFacts.token_lexer_consumes. Qed.
+
+(* ------------------------------------------------------------------ the executable instance *)
+(* Nom/Exec.v gives the oracles a concrete reading regenerated from the source (Gen/GenPrims.v: every tag / is_a / is_not /
+   one_of / none_of of the productions, the bodies of the 13 free-text lexers as span-level expressions, the tables of the
+   15 token lexers, the guarded tag of keyword()).  For that instance -- the one that is run against the real parser on
+   every check -- the oracle hypothesis of C01_leaves_nonempty is a theorem: every primitive that succeeds consumes at
+   least one byte and stays inside the text, for every text, position and thread-local state. *)
+From SV Require Exec ExecFacts GenPrims.
+
+Theorem C01_exec_primitives_certified :
+  ExecFacts.cert_valid GenPrims.span_defs GenPrims.span_cert = true /\
+  forallb (ExecFacts.pnn GenPrims.span_cert) GenPrims.prim_table = true /\
+  length GenPrims.prim_table = length all_prims.
+Proof. vm_compute. repeat split; reflexivity. Qed.
+
+Theorem C01_exec_primitives_consume : forall inp sfuel i x p n,
+  Exec.prim_exec GenPrims.span_defs GenPrims.prim_table inp sfuel i x p = Some n -> 1 <= n /\ p + n <= length inp.
+Proof.
+  intros inp sfuel i x p n. destruct C01_exec_primitives_certified as (C1 & C2 & _).
+  exact (ExecFacts.prim_exec_consumes GenPrims.span_defs GenPrims.prim_table inp sfuel GenPrims.span_cert C1 C2 i x p n).
+Qed.
+
+(* no oracle left: whenever the executable grammar accepts, from the state init() leaves, the leaves tile what was
+   consumed and none of them is empty *)
+Theorem C01_exec_lossless : forall inp fuel n cap fo q st',
+  n < length grammar ->
+  Exec.exec GenPrims.span_defs GenPrims.prim_table grammar cap n inp fuel = (Ok fo q, st') ->
+  tiles inp fo 0 q /\ Forall (fun l => (1 <= l_len l)%N) (flat_map leaves fo).
+Proof.
+  intros inp fuel n cap fo q st' Hn H. unfold Exec.exec in H. split.
+  - eapply C01_tiling; eauto.
+  - eapply C01_leaves_nonempty; eauto.
+    intros i a p k _ Hp. apply C01_exec_primitives_consume in Hp. tauto.
+Qed.
